@@ -464,3 +464,73 @@ impl OutputLog {
         Ok(())
     }
 }
+
+/// Verification accessors (add-only, feature `verif`): expose the private index and the chunk
+/// reading path of `cat` without printing.  Used by /verif/harness/hq/stream.rs only.
+#[cfg(feature = "verif")]
+pub struct VerifInstance {
+    pub instance_id: u32,
+    pub file_idx: usize,
+    pub finished: bool,
+    /// per channel: (position, size) of every indexed chunk
+    pub channels: [Vec<(u64, u32)>; 2],
+}
+
+#[cfg(feature = "verif")]
+impl OutputLog {
+    pub fn verif_paths(&self) -> &[PathBuf] {
+        &self.paths
+    }
+
+    /// (job, task, instances in index order) for every task of the index, in map order.
+    pub fn verif_index(&self) -> Vec<(u32, u32, Vec<VerifInstance>)> {
+        let mut out = Vec::new();
+        for (job_id, tasks) in self.index.iter() {
+            for (task_id, info) in tasks.iter() {
+                let instances = info
+                    .instances
+                    .iter()
+                    .map(|i| VerifInstance {
+                        instance_id: i.instance_id.as_num(),
+                        file_idx: i.file_idx,
+                        finished: i.finished,
+                        channels: [
+                            i.channels[0].iter().map(|c| (c.position, c.size)).collect(),
+                            i.channels[1].iter().map(|c| (c.position, c.size)).collect(),
+                        ],
+                    })
+                    .collect();
+                out.push((job_id.as_num(), task_id.as_num(), instances));
+            }
+        }
+        out
+    }
+
+    /// The bytes `cat` would print for one task and channel (last instance), without printing and
+    /// without the `finished` check.
+    pub fn verif_read_channel(
+        &mut self,
+        job_id: JobId,
+        task_id: u32,
+        channel: usize,
+    ) -> anyhow::Result<Vec<u8>> {
+        let task_infos =
+            Self::_gather_infos(&self.index, job_id, &Some(IntArray::from_id(task_id)))?;
+        let mut out = Vec::new();
+        let mut buffer = Vec::new();
+        for (_, instance) in &task_infos {
+            for chunk in &instance.channels[channel] {
+                buffer.resize(chunk.size as usize, 0u8);
+                Self::read_buffer(
+                    &mut self.cache,
+                    &self.paths,
+                    instance.file_idx,
+                    chunk.position,
+                    &mut buffer,
+                )?;
+                out.extend_from_slice(&buffer);
+            }
+        }
+        Ok(out)
+    }
+}
